@@ -73,11 +73,16 @@ func c05Scenarios(tier string) []e1lib.Scenario {
 		bound4 = 4
 	}
 	var out []e1lib.Scenario
+	dev := 0 // >0: the case is explored up to that many deviations from the default schedule
 	add := func(c stage.Cfg) {
 		b := -1
 		if c.K >= 5 && (c.Stage == "partition" || c.Stage == "fmap") {
 			b = bound4
 		}
+		if dev > 0 {
+			b = dev
+		}
+		d := dev > 0
 		var done []string
 		for _, n := range stageRef(c).names {
 			done = append(done, n+"-eof")
@@ -85,7 +90,11 @@ func c05Scenarios(tier string) []e1lib.Scenario {
 		if hasErrCh(c.Stage) {
 			done = append(done, "err-eof")
 		}
-		out = append(out, e1lib.Scenario{Name: stageName(c), Root: func() { stage.Scenario(c) }, Check: c05Check(c), Bound: b, Sample: c, RealDone: done,
+		name := stageName(c)
+		if d {
+			name += fmt.Sprintf(" deviations<=%d", b)
+		}
+		out = append(out, e1lib.Scenario{Name: name, Root: func() { stage.Scenario(c) }, Check: c05Check(c), Bound: b, Deviations: d, Sample: c, RealDone: done,
 			// the result of these scenarios is deterministic by design (one outcome); a case is non-trivial
 			// when there is something to reorder: at least two elements and more than one schedule
 			Nontrivial: func(outcomes, execs, states int) bool { return c.K >= 2 && execs > 1 }})
@@ -126,11 +135,71 @@ func c05Scenarios(tier string) []e1lib.Scenario {
 			}
 		}
 	}
+	// element type `any` with nil interface values among the elements (identity functions, always-true predicates)
+	for _, st := range []string{"map", "fmap", "filter", "takewhile", "take", "partition", "seq"} {
+		for k := 0; k <= 3; k++ {
+			for cp := 0; cp <= 1; cp++ {
+				if st == "seq" && cp > 0 {
+					continue
+				}
+				add(stage.Cfg{Stage: st, K: k, N: k, Cap: cp, Stop: -1, Stop2: -1, Any: true, Mode: "pure"})
+			}
+		}
+	}
+	// Seq over argument lists longer than any plausible internal chunk size (the caller overwrites its slice after the call)
+	for _, k := range []int{17, 65, 129, 300} {
+		add(stage.Cfg{Stage: "seq", K: k, Stop: -1, Stop2: -1})
+	}
+	// long inputs: every stage over 9, 17 and 33 elements, explored up to a deviation bound
+	dev = 3
+	if tier == "thorough" {
+		dev = 4
+	}
+	for _, k := range []int{9, 17, 33} {
+		alt, all := 0, 0
+		for x := 1; x <= k; x++ {
+			all |= 1 << x
+			if x%3 != 0 {
+				alt |= 1 << x
+			}
+		}
+		for _, cp := range []int{0, 2} {
+			base := stage.Cfg{K: k, Cap: cp, Stop: -1, Stop2: -1}
+			for _, st := range []string{"map", "fmap", "filter", "takewhile", "take", "partition", "fold", "foreach", "void"} {
+				c := base
+				c.Stage = st
+				switch st {
+				case "map":
+					c.Mode = "pure"
+					add(c)
+				case "fmap":
+					c.Mode = "lift"
+					add(c)
+				case "filter", "partition":
+					c.Mask = alt
+					add(c)
+				case "takewhile":
+					c.Mask = all &^ (1 << (k - 1))
+					add(c)
+					c.Mask = all
+					add(c)
+				case "take":
+					for _, n := range []int{k / 2, k - 1, k, k + 1} {
+						c.N = n
+						add(c)
+					}
+				default:
+					add(c)
+				}
+			}
+		}
+	}
+	dev = 0
 	return out
 }
 
 func propC05() drv.Property {
 	return table("C05",
-		"one case = one sequential stage (Map with Pure/Lift/Try, FMap with LiftF/TryF, Filter, TakeWhile, Take, Partition, Fold, ForEach, Void, Seq/ToSeq) x input 1..k (k<=4, 6 in thorough) x input capacity 0..2 x every predicate pattern (2^k) x every Take n in 0..k+1, with a producer thread, the stage's goroutine(s) and one draining consumer thread per output; every interleaving is explored (state-cached, unbounded; preemption bound 4 for k>=5 FMap/Partition); the outcome of a case is deterministic by design, so non-trivial = k>=2 and more than one schedule",
+		"one case = one sequential stage (Map with Pure/Lift/Try, FMap with LiftF/TryF, Filter, TakeWhile, Take, Partition, Fold, ForEach, Void, Seq/ToSeq) x input 1..k (k<=4, 6 in thorough) x input capacity 0..2 x every predicate pattern (2^k) x every Take n in 0..k+1, with a producer thread, the stage's goroutine(s) and one draining consumer thread per output; every interleaving is explored (state-cached, unbounded; preemption bound 4 for k>=5 FMap/Partition); the same stages instantiated at element type any with nil interface values among the elements; Seq over 17..300 arguments with the caller overwriting its slice after the call; every stage over 9, 17 and 33 elements explored up to 3 (thorough 4) deviations from the default schedule (a deviation = a preemption, a non-default thread at a blocking point or a non-default ready select arm); the outcome of a case is deterministic by design, so non-trivial = k>=2 and more than one schedule",
 		commonAssumptions, c05Scenarios)
 }
